@@ -113,6 +113,9 @@ def observe_misuse(ic: Any, cell: dict) -> Tuple[str, str]:
                 params = "result=1"
             elif m == "param_OLD":
                 params = "OLD=1"
+            elif m in ("param_result_pre_violated", "param_OLD_pre_violated"):
+                params = "{}=1".format(m.split("_")[1])
+                ns["PRE_VIOLATED"] = ic.require(lambda: False)
             elif m in ("param_result_kwonly", "param_OLD_kwonly"):
                 params = "x=1, *, {}=1".format(m.split("_")[1])
             elif m in ("param_result_posonly", "param_OLD_posonly"):
@@ -126,7 +129,10 @@ def observe_misuse(ic: Any, cell: dict) -> Tuple[str, str]:
             moment[0] = "decorate"
             ns["DECO"] = deco
             src, call = _target(ic, c, params)
-            exec(src.replace("{D}", "@DECO"), ns)
+            stack_src = "@PRE_VIOLATED\n    @DECO" if "PRE_VIOLATED" in ns else "@DECO"
+            if c in ("function", "async_function"):
+                stack_src = stack_src.replace("\n    ", "\n")
+            exec(src.replace("{D}", stack_src), ns)
             moment[0] = "call"
             if m in ("kw_ARGS_reentrant", "kw_KWARGS_reentrant"):
                 state = {"depth": 0}
